@@ -45,8 +45,42 @@ class _Beta(ast.NodeTransformer):
         return node
 
 
+class _FoldConst(ast.NodeTransformer):
+    """conditionals decided by a constant that was substituted for a parameter keep only the arm that is taken"""
+
+    def visit_IfExp(self, node):
+        self.generic_visit(node)
+        if isinstance(node.test, ast.Constant) and isinstance(node.test.value, bool):
+            return node.body if node.test.value else node.orelse
+        return node
+
+    def visit_If(self, node):
+        self.generic_visit(node)
+        if isinstance(node.test, ast.Constant) and isinstance(node.test.value, bool):
+            res = node.body if node.test.value else node.orelse
+            return res if res else ast.Pass()
+        return node
+
+    def visit_UnaryOp(self, node):
+        self.generic_visit(node)
+        if isinstance(node.op, ast.Not) and isinstance(node.operand, ast.Constant) and isinstance(node.operand.value, bool):
+            return ast.copy_location(ast.Constant(value=not node.operand.value), node)
+        return node
+
+
 def _subst(node, env):
-    return _Beta().visit(_Sub(env).visit(_fcopy(node)))
+    res = _FoldConst().visit(_Beta().visit(_Sub(env).visit(_fcopy(node))))
+    return res
+
+
+def _flat(items):
+    out = []
+    for it in items:
+        if isinstance(it, list):
+            out.extend(it)
+        else:
+            out.append(it)
+    return out
 
 
 def _has(node_or_list, types):
@@ -58,11 +92,51 @@ def _has(node_or_list, types):
     return False
 
 
+def _final_loop_with_returns(fd):
+    """the helper ends in one loop (`while True:` / `for`) whose returns are not inside a further loop or try: returns can become
+    `target = value; break`"""
+    body = [s for s in fd.body if not (isinstance(s, ast.Expr) and isinstance(s.value, ast.Constant))]
+    if not body or not isinstance(body[-1], (ast.While, ast.For)):
+        return None
+    lp = body[-1]
+    if isinstance(lp, ast.While) and not (isinstance(lp.test, ast.Constant) and lp.test.value is True):
+        return None
+    if isinstance(lp, ast.For):
+        return None
+    for s_ in body[:-1]:
+        if any(isinstance(x, ast.Return) for x in ast.walk(s_)) and isinstance(s_, (ast.For, ast.While, ast.Try, ast.With)):
+            return None
+    for x in ast.walk(lp):
+        if x is not lp and isinstance(x, (ast.For, ast.While, ast.Try, ast.With)) and any(isinstance(y, ast.Return) for y in ast.walk(x)):
+            return None
+    return lp
+
+
 def _returns_in_loops_or_try(fd):
+    lp = _final_loop_with_returns(fd)
     for n in ast.walk(fd):
+        if n is lp:
+            continue
         if isinstance(n, (ast.For, ast.While, ast.Try, ast.With)) and any(isinstance(x, ast.Return) for x in ast.walk(n)):
             return True
     return False
+
+
+class _RetToBreak(ast.NodeTransformer):
+    def __init__(self, target):
+        self.target = target
+
+    def visit_FunctionDef(self, node):
+        return node
+
+    def visit_Return(self, node):
+        out = []
+        if self.target is not None:
+            out.append(ast.Assign(targets=[_fcopy(self.target)], value=node.value if node.value is not None else ast.Constant(value=None)))
+        elif node.value is not None and _has(node.value, ast.Call):
+            out.append(ast.Expr(value=node.value))
+        out.append(ast.Break())
+        return out
 
 
 def _locals_of(fd):
@@ -138,19 +212,37 @@ def _as_statements(stmts, target, keep_returns):
     if not stmts:
         return []
     st, rest = stmts[0], stmts[1:]
+    if not keep_returns and not rest and isinstance(st, ast.While) and isinstance(st.test, ast.Constant) and st.test.value is True and any(isinstance(x, ast.Return) for x in ast.walk(st)):
+        # the final `while True:` of the helper: its returns leave the loop with the result assigned
+        return [_RetToBreak(target).visit(st)]
     if isinstance(st, ast.Return):
         if keep_returns:
             return [st]
         if target is None:
             return [ast.Expr(value=st.value)] if st.value is not None and _has(st.value, ast.Call) else []
+        if isinstance(target, ast.Name) and isinstance(st.value, ast.Name) and st.value.id == target.id:
+            return []      # `x = x`
         return [ast.Assign(targets=[_fcopy(target)], value=st.value if st.value is not None else ast.Constant(value=None))]
     if isinstance(st, ast.Raise):
         return [st]
     if isinstance(st, ast.If) and (_has(st.body, ast.Return) or _has(st.orelse, ast.Return)):
         body = _as_statements(st.body + ([] if _ends(st.body) else rest), target, keep_returns)
         orelse = _as_statements(st.orelse + ([] if _ends(st.orelse) else rest), target, keep_returns)
+        if not body and orelse:
+            # `if c: (nothing) else: X`  ->  `if not c: X`  (keeps the familiar shape `if row is None: ...`)
+            t = st.test
+            if isinstance(t, ast.Compare) and len(t.ops) == 1 and type(t.ops[0]) in _NEG:
+                nt = ast.Compare(left=t.left, ops=[_NEG[type(t.ops[0])]()], comparators=t.comparators)
+            elif isinstance(t, ast.UnaryOp) and isinstance(t.op, ast.Not):
+                nt = t.operand
+            else:
+                nt = ast.UnaryOp(op=ast.Not(), operand=t)
+            return [ast.If(test=nt, body=orelse, orelse=[])]
         return [ast.If(test=st.test, body=body or [ast.Pass()], orelse=orelse)]
     return [st] + _as_statements(rest, target, keep_returns)
+
+
+_NEG = {ast.Is: ast.IsNot, ast.IsNot: ast.Is, ast.Eq: ast.NotEq, ast.NotEq: ast.Eq, ast.Lt: ast.GtE, ast.GtE: ast.Lt, ast.Gt: ast.LtE, ast.LtE: ast.Gt, ast.In: ast.NotIn, ast.NotIn: ast.In}
 
 
 def _ends(stmts):
@@ -225,7 +317,29 @@ class Inliner(object):
                     for m in st.body:
                         if isinstance(m, ast.FunctionDef):
                             self._function(mname, '{}.{}'.format(st.name, m.name), m, funcs, cm, st.name)
+            # a new helper whose every use was inlined is no longer part of the analysed program
+            self._drop_unused(mname, mod, funcs, methods)
         return self.log
+
+    def _drop_unused(self, mname, mod, funcs, methods):
+        def referenced(name, is_method, skip):
+            for n in ast.walk(mod):
+                if n is skip:
+                    continue
+                if is_method and isinstance(n, ast.Attribute) and n.attr == name and not any(n is x for x in ast.walk(skip)):
+                    return True
+                if not is_method and isinstance(n, ast.Name) and n.id == name and isinstance(n.ctx, ast.Load) and not any(n is x for x in ast.walk(skip)):
+                    return True
+            return False
+        for name, fd in list(funcs.items()):
+            if fd in mod.body and not referenced(name, False, fd) and not any(name == getattr(e, 'id', None) for st in mod.body if isinstance(st, ast.Assign) for e in ast.walk(st)):
+                mod.body.remove(fd)
+                self.log.append('{}: new helper {}() has no remaining use and is left out of the analysed module'.format(mname, name))
+        for (cname, name), fd in list(methods.items()):
+            cls = next((c for c in mod.body if isinstance(c, ast.ClassDef) and c.name == cname), None)
+            if cls is not None and fd in cls.body and not referenced(name, True, fd):
+                cls.body.remove(fd)
+                self.log.append('{}: new method {}.{}() has no remaining use and is left out of the analysed class'.format(mname, cname, name))
 
     def _function(self, mname, qual, fd, funcs, methods, cls):
         # nested helpers that the reference version of this function did not have
@@ -324,7 +438,7 @@ class Inliner(object):
                 if env is None:
                     return None
                 pre_stmts = env.pop('__pre__')
-                body = pre_stmts + [_subst(s_, env) for s_ in fd.body if not (isinstance(s_, ast.Expr) and isinstance(s_.value, ast.Constant))]
+                body = pre_stmts + _flat([_subst(s_, env) for s_ in fd.body if not (isinstance(s_, ast.Expr) and isinstance(s_.value, ast.Constant))])
                 tmp = '__inl{}'.format(self.counter)
                 pre = _as_statements(body, ast.Name(id=tmp, ctx=ast.Store()), False)
                 st.iter = ast.Name(id=tmp, ctx=ast.Load())
@@ -388,7 +502,7 @@ class Inliner(object):
         if env is None:
             return None
         pre_stmts = env.pop('__pre__')
-        body = pre_stmts + [_subst(s, env) for s in fd.body if not (isinstance(s, ast.Expr) and isinstance(s.value, ast.Constant))]
+        body = pre_stmts + _flat([_subst(s, env) for s in fd.body if not (isinstance(s, ast.Expr) and isinstance(s.value, ast.Constant))])
         for b in body:
             ast.fix_missing_locations(b)
 
@@ -554,7 +668,7 @@ def flatten_new_bases(port, ref):
                     env_ = {p_: a_ for p_, a_ in zip(prm, args_)}
                     for p_, d_ in zip(prm[len(prm) - len(bi.args.defaults):], bi.args.defaults):
                         env_.setdefault(p_, d_)
-                    new_body.extend(_subst(x, env_) for x in bi.body)
+                    new_body.extend(_flat([_subst(x, env_) for x in bi.body]))
                     hit = True
                     copied.append('{}.__init__ (through super)'.format(bases[0].name))
                 if not hit:
